@@ -225,6 +225,19 @@ func answer(q string) (res string) {
 			return "err:sql"
 		}
 		return okHex(oq.Query)
+	case "parsefloats":
+		out := []string{}
+		for _, h := range strings.Split(strings.TrimSuffix(arg, ","), ",") {
+			f, err := strconv.ParseFloat(unhexs(h), 64)
+			if err != nil && !strings.Contains(err.Error(), "out of range") {
+				out = append(out, "err")
+			} else if err != nil {
+				out = append(out, "err")
+			} else {
+				out = append(out, fbits(f))
+			}
+		}
+		return okHex(strings.Join(out, ","))
 	case "sprintf":
 		j := strings.IndexByte(arg, ':')
 		if j < 0 {
